@@ -9,18 +9,23 @@ import (
 )
 
 func pt(p unsafe.Pointer) bool {
-	return vsched.Point(vsched.OpAtomic, vsched.AddrID(p), nil)
+	return vsched.Point(vsched.OpAtomic, vsched.AddrKey(uintptr(p)), nil)
+}
+
+// ld is the scheduling point of a pure load (commutes with other loads).
+func ld(p unsafe.Pointer) bool {
+	return vsched.PointR(vsched.OpAtomic, vsched.AddrKey(uintptr(p)), nil)
 }
 
 func AddInt32(a *int32, d int32) int32                 { pt(unsafe.Pointer(a)); *a += d; return *a }
 func AddInt64(a *int64, d int64) int64                 { pt(unsafe.Pointer(a)); *a += d; return *a }
 func AddUint32(a *uint32, d uint32) uint32             { pt(unsafe.Pointer(a)); *a += d; return *a }
 func AddUint64(a *uint64, d uint64) uint64             { pt(unsafe.Pointer(a)); *a += d; return *a }
-func LoadInt32(a *int32) int32                         { pt(unsafe.Pointer(a)); return *a }
-func LoadInt64(a *int64) int64                         { pt(unsafe.Pointer(a)); return *a }
-func LoadUint32(a *uint32) uint32                      { pt(unsafe.Pointer(a)); return *a }
-func LoadUint64(a *uint64) uint64                      { pt(unsafe.Pointer(a)); return *a }
-func LoadPointer(a *unsafe.Pointer) unsafe.Pointer     { pt(unsafe.Pointer(a)); return *a }
+func LoadInt32(a *int32) int32                         { ld(unsafe.Pointer(a)); return *a }
+func LoadInt64(a *int64) int64                         { ld(unsafe.Pointer(a)); return *a }
+func LoadUint32(a *uint32) uint32                      { ld(unsafe.Pointer(a)); return *a }
+func LoadUint64(a *uint64) uint64                      { ld(unsafe.Pointer(a)); return *a }
+func LoadPointer(a *unsafe.Pointer) unsafe.Pointer     { ld(unsafe.Pointer(a)); return *a }
 func StoreInt32(a *int32, v int32)                     { pt(unsafe.Pointer(a)); *a = v }
 func StoreInt64(a *int64, v int64)                     { pt(unsafe.Pointer(a)); *a = v }
 func StoreUint32(a *uint32, v uint32)                  { pt(unsafe.Pointer(a)); *a = v }
@@ -122,5 +127,5 @@ func (x *Bool) Store(b bool) {
 
 type Value struct{ v any }
 
-func (x *Value) Load() any   { pt(unsafe.Pointer(x)); return x.v }
+func (x *Value) Load() any   { ld(unsafe.Pointer(x)); return x.v }
 func (x *Value) Store(v any) { pt(unsafe.Pointer(x)); x.v = v }
